@@ -71,6 +71,10 @@ public:
         _info._width  = read_int();
         _info._height = read_int();
 
+        io_error_if( _info._width < 1 || _info._height < 1
+                   , "Invalid dimension for pnm file"
+                   );
+
         if( _info._type == pnm_image_type::mono_asc_t::value || _info._type == pnm_image_type::mono_bin_t::value )
         {
             _info._max_value = 1;
